@@ -276,7 +276,9 @@ class SegmentationImage:
         """
         if self.nlabels == 0:
             return 0
-        return np.max(self.labels)
+        # a Python int, so that ``max_label + 1`` cannot overflow the
+        # (possibly small) integer dtype of the segmentation array
+        return int(np.max(self.labels))
 
     def get_index(self, label):
         """
